@@ -162,6 +162,15 @@ func VerifyFunc(p *Program, fc *FuncContract, opts VerifyOpts) (rep *FuncReport)
 				x.watch = append(x.watch, Watch{Name: "in:" + prm.Name() + flatten(prm.Type())[i].Path, T: l})
 			}
 		}
+		// the fields behind a pointer to a flat struct (receiver or argument) are part of a counterexample too
+		if v.K == VPtr && autoReplayable(fn) {
+			if et := ptrElem(prm.Type()); et != nil && classify(et) != VPtr {
+				for _, l := range flatten(et) {
+					_, h := st.heapArr(et, l, false)
+					x.watch = append(x.watch, Watch{Name: "in:" + prm.Name() + "->" + l.Path, T: Select(h, v.T)})
+				}
+			}
+		}
 	}
 	env := contractEnv(x, fc, fn, args, st)
 	for _, r := range fc.Requires {
